@@ -556,6 +556,8 @@ func freshBase(v ssa.Value) bool {
 	switch x := v.(type) {
 	case *ssa.Alloc:
 		return true
+	case *ssa.FieldAddr:
+		return freshBase(x.X) // a struct embedded by value in the object under construction
 	case *ssa.Phi:
 		for _, e := range x.Edges {
 			if !freshBase(e) {
